@@ -68,3 +68,7 @@ def register_all(reg):
     reg("C24", "seqx", "exploration", "bounded-exhaustive instances vs brute-force optimum over all mappings",
         "Every tiny DCOP shape (<=4 quick / <=5 thorough computations, <=3 agents, <=k non-base profile dimensions of footprint/capacity/hosting/route/load) is distributed by the real oilp_cgdp / ilp_fgdp; the method's own distribution_cost of the result is compared with the minimum over all |A|^|C| mappings passing its hard rules; ImpossibleDistributionException iff none passes.",
         "Trusted base: the CBC shim standing in for GLPK_CMD, CBC optimality, symmetric loads/routes. " + E2_NOTE, "DESIGN.md 3 C24")
+
+    reg("C11", "seqx", "exploration", "bounded-exhaustive relation construction x partial assignment x slicing sequence vs reference function, in sub-processes over 5 hash seeds",
+        "Every relation kind over <=4 variables in every variable-list order is evaluated and sliced by every ordered <=3-step sequence; dimensions and all four call forms are compared with a plain-Python model under PYTHONHASHSEED 0,1,2,3,7 in every run.",
+        "Quick restricts arity 4 to the expression kind and conditionals to <=3 variables; the documented ZeroAry result of return_neutral=False is accepted. " + E2_NOTE, "DESIGN.md 3 C11")
